@@ -245,7 +245,7 @@ def gen_const(rng, ns, idx, keys, typedef_names, enum_names):
         else:
             d['type'] = None
     elif kind == 'string':
-        alphabet = 'abc XYZ09_"\'<>&;%\\/éß中😀'
+        alphabet = 'abc XYZ09_"\'<>&;%\\/éß中😀\n\t\r'   # C string escapes \n \t \r arrive decoded
         d['string'] = ''.join(rng.choice(alphabet) for _ in range(rng.randint(0, 12)))
         if rng.random() < 0.2:
             d['type'] = rng.choice(['char*', 'gchar*'])
